@@ -117,6 +117,9 @@ PROPS = {
                 ALL,
             ),
             "handlers": (["Executor::handle_tail_call", "Frame::new"], ALL),
+            # of step only the asserted fact that it begins by emptying the reclamation queue (topic "taint": a failed
+            # assertion); its postconditions belong to C06 / C15
+            "step": (["Executor::step"], ALL, "taint"),
         },
         "kani": [],
     },
